@@ -105,27 +105,27 @@ type PeerSpec struct {
 
 // PeerLog is what the peer observed.
 type PeerLog struct {
-	mu               sync.Mutex
-	ConnectReqs      int
-	ConnectTarget    string
-	ConnectHost      string
-	ProxyAuth        []string
-	SocksReqs        int
-	SocksTarget      string
-	SocksMethods     []byte
-	SocksUser        string
-	SocksPass        string
-	SocksAuthUsed    bool
-	ProxySNI         string
-	BackendSNI       string
-	BackendTLSDone   bool
-	UpgradeReqs      int
-	UpgradeInsideTLS bool
-	UpgradeHost      string
+	mu                sync.Mutex
+	ConnectReqs       int
+	ConnectTarget     string
+	ConnectHost       string
+	ProxyAuth         []string
+	SocksReqs         int
+	SocksTarget       string
+	SocksMethods      []byte
+	SocksUser         string
+	SocksPass         string
+	SocksAuthUsed     bool
+	ProxySNI          string
+	BackendSNI        string
+	BackendTLSDone    bool
+	UpgradeReqs       int
+	UpgradeInsideTLS  bool
+	UpgradeHost       string
 	BytesAfterRefusal int
-	Errors           []string
-	Echoed           int
-	done             chan struct{}
+	Errors            []string
+	Echoed            int
+	done              chan struct{}
 }
 
 func (l *PeerLog) errf(format string, a ...interface{}) {
